@@ -358,7 +358,7 @@ func (w *Worker) reportViolation(e *Exec, label, kind, msg string, m map[string]
 	if kind == "assert" && !r.Spec.counts(label) {
 		return // a clause of another property, asserted by a shared harness
 	}
-	v := &Violation{Pkg: r.Spec.Pkg, Harness: r.Spec.Func, Params: r.Spec.Params, Label: label, Kind: kind, Msg: msg, Model: m,
+	v := &Violation{ScheduleDependent: e.env != nil && e.env.explore, Pkg: r.Spec.Pkg, Harness: r.Spec.Func, Params: r.Spec.Params, Label: label, Kind: kind, Msg: msg, Model: m,
 		Inputs: append([]InputRec(nil), e.inputs...), Trace: append([]Decision(nil), e.trace...), Pos: e.curCallPos}
 	r.mu.Lock()
 	// keep at most a few per label
